@@ -220,11 +220,13 @@ func NewMsgRedelegate(args []interface{}, denom string) (*stakingtypes.MsgBeginR
 	if !ok {
 		return nil, common.Address{}, fmt.Errorf(cmn.ErrInvalidType, "validatorSrcAddress", "string", args[1])
 	}
+	validatorSrcAddress = canonicalValidatorAddress(validatorSrcAddress)
 
 	validatorDstAddress, ok := args[2].(string)
 	if !ok {
 		return nil, common.Address{}, fmt.Errorf(cmn.ErrInvalidType, "validatorDstAddress", "string", args[2])
 	}
+	validatorDstAddress = canonicalValidatorAddress(validatorDstAddress)
 
 	amount, ok := args[3].(*big.Int)
 	if !ok {
@@ -264,6 +266,7 @@ func NewMsgCancelUnbondingDelegation(args []interface{}, denom string) (*staking
 	if !ok {
 		return nil, common.Address{}, fmt.Errorf(cmn.ErrInvalidType, "validatorAddress", "string", args[1])
 	}
+	validatorAddress = canonicalValidatorAddress(validatorAddress)
 
 	amount, ok := args[2].(*big.Int)
 	if !ok {
@@ -780,6 +783,7 @@ func checkDelegationUndelegationArgs(args []interface{}) (common.Address, string
 	if !ok {
 		return common.Address{}, "", nil, fmt.Errorf(cmn.ErrInvalidType, "validatorAddress", "string", args[1])
 	}
+	validatorAddress = canonicalValidatorAddress(validatorAddress)
 
 	amount, ok := args[2].(*big.Int)
 	if !ok {
@@ -787,6 +791,19 @@ func checkDelegationUndelegationArgs(args []interface{}) (common.Address, string
 	}
 
 	return delegatorAddr, validatorAddress, amount, nil
+}
+
+// canonicalValidatorAddress returns the canonical (lower-case) bech32 spelling of a validator operator address.
+// A bech32 string is valid in upper case too and decodes to the same address, but a StakeAuthorization compares the
+// validator address of the message with its allow and deny lists as a string: a validator barred by a deny list
+// could be reached by spelling its address in upper case. A string that is not a validator address is returned as
+// it is and refused by the message's own validation.
+func canonicalValidatorAddress(addr string) string {
+	valAddr, err := sdk.ValAddressFromBech32(addr)
+	if err != nil {
+		return addr
+	}
+	return valAddr.String()
 }
 
 // FormatConsensusPubkey format ConsensusPubkey into a base64 string
